@@ -789,6 +789,8 @@ class Executor:
                                                'core::ops::FnOnce::call_once') and args:
                     # call of a closure value known on this path
                     c = self.deep_deref(body, fid, st, args[0])
+                    while c[0] == 'havoc' and len(c) > 3 and isinstance(c[3], tuple):
+                        c = c[3]        # an FnMut lent mutably inside a loop: its state is unknown, its code is not
                     if c[0] == 'agg' and c[1] == 'closure':
                         cb = self.facts.by_name.get(c[2], [None])[0]
                         if cb is not None:
@@ -935,7 +937,20 @@ class Executor:
                 st.facts[key] = ('not', frozenset((prev[1] if prev else frozenset()) | {dv}))
 
     def _implied(self, st, d):
-        """Value of a boolean `x == Variant` test implied by what is already known about discr(x)."""
+        """Value of a boolean `x == Variant` test implied by what is already known about discr(x) - or of a boolean that
+        is a known one under an odd/even number of negations (`let bad = !ok(); if bad {..}; ensure(!bad)`)."""
+        base, neg = d, False
+        while base[0] == 'unop' and base[1] == 'Not':
+            base, neg = base[2], not neg
+        if base is not d:
+            for cand, cneg in ((base, neg), (('unop', 'Not', base), not neg)):
+                f0 = st.facts.get(cand)
+                if f0 is not None and f0[0] == 'is' and f0[1] in ('0', '1'):
+                    return f0[1] if not cneg else ('1' if f0[1] == '0' else '0')
+        elif ('unop', 'Not', d) in st.facts:
+            f0 = st.facts[('unop', 'Not', d)]
+            if f0[0] == 'is' and f0[1] in ('0', '1'):
+                return '1' if f0[1] == '0' else '0'
         vt = self._variant_test(d)
         if vt is None:
             return None
